@@ -4,6 +4,8 @@ import (
 	"fmt"
 	"go/token"
 	"go/types"
+	"os"
+	"runtime/debug"
 	"sort"
 	"strconv"
 	"strings"
@@ -87,7 +89,12 @@ type InputVar struct {
 
 type toolLimit struct{ msg string }
 
-func limitf(f string, a ...any) { panic(toolLimit{fmt.Sprintf(f, a...)}) }
+func limitf(f string, a ...any) {
+	if os.Getenv("SPECV_DEBUG_LIMIT") != "" {
+		debug.PrintStack()
+	}
+	panic(toolLimit{fmt.Sprintf(f, a...)})
+}
 
 func NewEngine(p *Prog, u *Unit) *Engine {
 	bv := u.C != nil && u.C.Arith == "bv"
